@@ -506,6 +506,18 @@ func runC06Histories(c *core.Ctx) {
 		k.Do("commit-all")
 		w.Write(k.freshPath(), k.content())
 		k.Do("commit-all")
+		if w.Hist%8 == 6 {
+			ps := k.DeepPaths()
+			k.goit("add", "deep", "long")
+			k.goit("ls-files")
+			k.Do("commit")
+			k.goit("rm", ps[0])
+			k.goit("restore", "--staged", "deep")
+			k.goit("reset", "--mixed", "HEAD@{0}")
+			k.goit("ls-files", "-s")
+			k.goit("rm", ps[2], ps[3])
+			k.goit("restore", "--staged", "long")
+		}
 		if w.Hist%8 == 3 {
 			// scale: the staging-area file grows past 4 KiB (and past 8, 12 KiB), first in one step, then entry by entry
 			names := k.Populate(110 + k.R.IntN(260))
